@@ -17,7 +17,7 @@ func libSuite(prop string) Suite {
 		},
 		Cases: func(tier string) int {
 			if tier == "thorough" {
-				return 4000
+				return 12000
 			}
 			return 600
 		},
@@ -33,7 +33,7 @@ func codecSuite() Suite {
 		Gen:    func(r *Rng, i int, tier string) []Op { return genCodecOps(r, impl) },
 		Cases: func(tier string) int {
 			if tier == "thorough" {
-				return 20000
+				return 60000
 			}
 			return 4000
 		},
@@ -60,7 +60,7 @@ func hostileCodecSuite() Suite {
 		Gen:      func(r *Rng, i int, tier string) []Op { return genHostileCodec(r) },
 		Cases: func(tier string) int {
 			if tier == "thorough" {
-				return 40000
+				return 100000
 			}
 			return 6000
 		},
@@ -76,7 +76,7 @@ func hostileFileSuite() Suite {
 		Gen:      func(r *Rng, i int, tier string) []Op { return genHostileFile(r) },
 		Cases: func(tier string) int {
 			if tier == "thorough" {
-				return 20000
+				return 50000
 			}
 			return 3000
 		},
@@ -107,7 +107,7 @@ func validateSuite() Suite {
 		Gen:    func(r *Rng, i int, tier string) []Op { return genValidateOps(r) },
 		Cases: func(tier string) int {
 			if tier == "thorough" {
-				return 30000
+				return 80000
 			}
 			return 5000
 		},
@@ -122,7 +122,7 @@ func textSuite() Suite {
 		Gen:    genTextOps,
 		Cases: func(tier string) int {
 			if tier == "thorough" {
-				return 6000
+				return 15000
 			}
 			return 1500
 		},
@@ -186,7 +186,7 @@ func suitesFor(prop string) []Suite {
 				return genCopyGlobCase(r)
 			}
 			return genCopyCase(r)
-		}, 700, 4000, postCopy)}
+		}, 700, 10000, postCopy)}
 	case "C09":
 		return []Suite{cmdSuite("diff", func(r *Rng, i int, tier string) []Op {
 			if i%8 == 5 {
@@ -196,33 +196,33 @@ func suitesFor(prop string) []Suite {
 				return genCopyGlobCase(r)
 			}
 			return genDiffCase(r)
-		}, 700, 4000, postDiff)}
+		}, 700, 10000, postDiff)}
 	case "C10":
-		return []Suite{cmdSuite("sum", func(r *Rng, i int, tier string) []Op { return genSumCase(r, "C10") }, 600, 3000, postAny)}
+		return []Suite{cmdSuite("sum", func(r *Rng, i int, tier string) []Op { return genSumCase(r, "C10") }, 600, 8000, postAny)}
 	case "C11":
 		return []Suite{cmdSuite("sumcopy", func(r *Rng, i int, tier string) []Op {
 			if i%6 == 4 {
 				return genStagedCase(r, "C11")
 			}
 			return genSumCase(r, "C11")
-		}, 600, 3000, postSumCopy)}
+		}, 600, 8000, postSumCopy)}
 	case "C12":
-		return []Suite{cmdSuite("remote", func(r *Rng, i int, tier string) []Op { return genRemoteCase(r) }, 300, 2000, postRemote)}
+		return []Suite{cmdSuite("remote", func(r *Rng, i int, tier string) []Op { return genRemoteCase(r) }, 300, 5000, postRemote)}
 	case "C18":
-		return []Suite{cmdSuite("view", func(r *Rng, i int, tier string) []Op { return genViewCase(r) }, 600, 4000, postView)}
+		return []Suite{cmdSuite("view", func(r *Rng, i int, tier string) []Op { return genViewCase(r) }, 600, 10000, postView)}
 	case "C13":
 		return []Suite{{Name: "lock", Custom: lockSuite}}
 	case "C17":
 		return []Suite{{Name: "race", Custom: raceSuite}}
 	case "C20":
-		return []Suite{cmdSuite("generate", func(r *Rng, i int, tier string) []Op { return genGenerateCase(r) }, 150, 1500, postAny)}
+		return []Suite{cmdSuite("generate", func(r *Rng, i int, tier string) []Op { return genGenerateCase(r) }, 150, 4000, postAny)}
 	case "C16":
 		return []Suite{cmdSuite("loud", func(r *Rng, i int, tier string) []Op {
 			if i%25 == 24 {
 				return genFullTextOutCase(r, []string{"C05", "C11"}[r.Intn(2)])
 			}
 			return genLoudCase(r)
-		}, 1000, 6000, postAny)}
+		}, 1000, 15000, postAny)}
 	case "C06":
 		return []Suite{libSuite(prop), interopSuite()}
 	case "C19":
@@ -235,7 +235,7 @@ func suitesFor(prop string) []Suite {
 		return []Suite{codecSuite()}
 	case "C05":
 		// the CLI clause: a write that fails before its final Sync leaves the destination alone
-		return []Suite{libSuite(prop), cmdSuite("cli-fail", func(r *Rng, i int, tier string) []Op { return genCliFailCase(r) }, 40, 600, postAny)}
+		return []Suite{libSuite(prop), cmdSuite("cli-fail", func(r *Rng, i int, tier string) []Op { return genCliFailCase(r) }, 40, 1500, postAny)}
 	case "C01", "C02", "C03", "C04":
 		return []Suite{libSuite(prop)}
 	}
